@@ -22,7 +22,7 @@ def DirPos (p0 : Option Nat) (n0 : Nat) (sig : Option Signal) : Prop :=
 section
 variable {env : Env κ} {inp : Bytes}
 
-theorem scanEmitHint_dir (c : Common) (s : ScanRegs) (x : Ctx κ) (ts : Nat) (ie : Bool) (d : Directive) (bm : Bookmark)
+theorem scanEmitHint_dirpos (c : Common) (s : ScanRegs) (x : Ctx κ) (ts : Nat) (ie : Bool) (d : Directive) (bm : Bookmark)
     (h : (scanEmitHint env inp c s x ts ie).2 = some (.directive d bm)) : bm.pos = ts := by
   unfold scanEmitHint at h
   split at h
@@ -48,7 +48,7 @@ theorem scanAct_dir (a : ActName) (c : Common) (s : ScanRegs) (x : Ctx κ) (d : 
       · split at h
         · simp only [Option.some.injEq, Signal.directive.injEq] at h
           rw [hts, ← h.2]; rfl
-        · rw [hts, scanEmitHint_dir _ _ _ _ _ d bm h]
+        · rw [hts, scanEmitHint_dirpos _ _ _ _ _ d bm h]
   all_goals
     exfalso
     revert h
